@@ -769,6 +769,12 @@ func runOnce(p *Program, t *Task) (outcome string) {
 				outcome = "panic:" + panicString(p.v)
 			default:
 				outcome = fmt.Sprintf("panic:%v", r)
+				if strings.Contains(outcome, "interp.") {
+					// a host type error inside the interpreter (a value of an
+					// engine-model type reached code that expects the real
+					// representation): the engine cannot run this code
+					outcome = "unsupported:engine fault: " + outcome[len("panic:"):]
+				}
 				if os.Getenv("GOSYM_STACK") != "" {
 					fmt.Fprintln(os.Stderr, outcome)
 					debug.PrintStack()
@@ -801,6 +807,7 @@ func runOnce(p *Program, t *Task) (outcome string) {
 	for k, a := range t.Args {
 		args[k] = a
 	}
+	inHarnessPhase = true
 	call(i, nil, token.NoPos, mainpkg.Func(t.Harness), []value{args})
 	return "ok"
 }
